@@ -11,7 +11,7 @@ Engines
     the head of every pass, no pass cut short) evaluated on the REAL traces twice - by the extracted Gallina
     predicates (cbu / one_mode / hk_ok) and by an independent Python re-implementation (they must agree) - and the
     firmware's markers / values compared with CPython's (harness/impl/pyrun_impl.py) for every N in {0,1,2,3},
-    inside the guard the model computes (transl_ok, one main loop as last item, vars_persist)."""
+    inside the guard the model computes (transl_ok, one main loop as last item, vars_ok)."""
 from __future__ import annotations
 
 import re
@@ -867,7 +867,7 @@ NMAX = 3
 
 def guard_of(flags):
     return {"transl_ok": bool(flags[0]), "vars_persist": bool(flags[1]), "well_placed": bool(flags[2]),
-            "one_main_last": bool(flags[3])}
+            "one_main_last": bool(flags[3]), "vars_ok": bool(flags[4])}
 
 
 def check_batch(ctx, progs, stats, known_mode=False):
@@ -934,7 +934,7 @@ def check_batch(ctx, progs, stats, known_mode=False):
             # compilability is C06's property; here it only means the trace engines have nothing to look at
             stats["not_compiled"] += 1
             g = rec["guard"]
-            if g and g["transl_ok"] and g["vars_persist"] and not known_mode:
+            if g and g["transl_ok"] and g["vars_ok"] and not known_mode:
                 ctx.disagree("generated script inside the guard did not compile/run under the mock", p["src"], None,
                              (o["compile_log"] or o["stderr"])[-600:])
             continue
@@ -995,7 +995,7 @@ def check_batch(ctx, progs, stats, known_mode=False):
             if mo[0] != 0 or got != (ok_cbu, ok_one, hk, hk_setup):
                 ctx.disagree("extracted monitors (cbu, one_mode, hk_ok) vs their Python re-implementation on a real trace",
                              p["src"], mo, [ok_cbu, ok_one, hk, hk_setup])
-        g = rec["guard"] or {"transl_ok": True, "vars_persist": True, "well_placed": True, "one_main_last": True}
+        g = rec["guard"] or {"transl_ok": True, "vars_persist": True, "well_placed": True, "one_main_last": True, "vars_ok": True}
         stats["monitor_runs"] += 1
         if g["well_placed"]:
             stats["in_guard_placement"] += 1
@@ -1038,7 +1038,9 @@ def check_batch(ctx, progs, stats, known_mode=False):
         if i in pyjob_of:
             po = pyouts[pyjob_of[i]]
             rec["py"] = po
-            inside = g["transl_ok"] and g["vars_persist"] and g["one_main_last"]
+            inside = g["transl_ok"] and g["vars_ok"] and g["one_main_last"]
+            if inside and not g["vars_persist"]:
+                stats["inside_with_loop_locals"] = stats.get("inside_with_loop_locals", 0) + 1
             if po["exc"] is not None:
                 stats["py_exc"] += 1
                 if inside and not known_mode:
@@ -1200,11 +1202,15 @@ def run(ctx: C.Ctx):
                          "compared_with_cpython_inside_guard": n_inside, "outside_guard_not_compared": stats["outside_guard_python"],
                          "cpython_exceptions": stats["py_exc"], "prefix_runs": prefix_checked,
                          "motor_pins_checked_for_safe_stop": stats.get("motor_pins_checked", 0),
+                         "compared_with_cpython_having_loop_locals": stats.get("inside_with_loop_locals", 0),
                          "device_kinds_setup": sorted({d[0] for p in progs for d in p["devs"].values() if d[2] == "setup"}),
                          "device_kinds_loop": sorted({d[0] for p in progs for d in p["devs"].values() if d[2] == "loop"})},
         "exhaustive": False,
-        "guard": "oracle vs CPython: model says transl_ok (no rejected break), one `while True:` and it is the last top-level item (or none), vars_persist (no name first assigned inside `while True:` or inside a block below setup depth 0); configure-before-use monitors: model says well_placed (unique device names, devices declared by top-level statements, before use, loop-top declarations only of the hoisted kinds, one mode per pin). Outside: known findings F-C05-*.",
+        "guard": "oracle vs CPython: model says transl_ok (no rejected break), one `while True:` and it is the last top-level item (or none), vars_ok (no block below setup depth 0 / inside the loop introduces a name; a name first assigned inside `while True:` is assigned by a top-level statement of the body before anything reads it in that pass); configure-before-use monitors: model says well_placed (unique device names, devices declared by top-level statements, before use, loop-top declarations only of the hoisted kinds, one mode per pin). Outside: known findings F-C05-looplocal-reinit (vars_ok), F-C05-postloop-in-setup and F-C05-second-main-loop-appended (one_main_last), F-C05-main-header-comment (lexical). The break guard, housekeeping (hk_ok), no-pass-cut-short and motor safe-stop oracles have no guard.",
         "unmodelled": ["devices declared inside nested blocks (outside the property's quantifier)", "re-declaration of a device name",
+                       "lexical recognition of the main-loop header (`while True:  # comment` is not recognised: finding F-C05-main-header-comment, replayed on the real parser only; generated headers are exactly `while True:`)",
+                       "the value a DCMotor is stopped with / a Servo is first written with (the model has 'a write'; the harness checks on the real trace that the first write on every motor pin is a 0-write inside setup())",
+                       "names promoted out of a block inside setup() below depth 0 are re-initialised at the head of the block on every execution of it (modelled; outside vars_ok; a C01 matter, not a clause of C05)",
                        "top-level `while <cond>:` and nested `while` loops, `try`, `elif/else`, functions other than marker-only button handlers",
                        "LCD / Buzzer / SerialMonitor declared inside `while True:` (not hoisted kinds; outside the quantifier)",
                        "expression layer (C01-C03): only int literals and `x + literal` are used", "timing: animations use speed_ms=0 so that every tick is observable",
